@@ -317,7 +317,22 @@ def materialise(thorough):
                 ITEMS.append(('mutant:%s:%s' % (d.entry[4], ml), 'mutant', ml.split('@')[0], mm, 'E'))
                 if d.entry[4] in CHARSET_B_MAPS:
                     ITEMS.append(('mutant:%s:%s' % (d.entry[4], ml), 'mutant', ml.split('@')[0], mm, 'B'))
+    # documents longer than the reader's 8 KiB buffer, slid character by character across the refill boundaries:
+    # line layout must not matter wherever a terminator / CR / LF falls relative to a read boundary
+    e834 = [e for e in ents if e[4] == '834.4010.X095.A1.xml']
+    if e834:
+        big = corpus.build_ok(e834[0], {'sets': 85})
+        if big is not None:
+            m0 = matrix_of(big.text())
+            k = [i for i, s in enumerate(m0) if s[0] == 'BGN'][0]
+            for pad in range(0, 48 if thorough else 30):
+                m = [[sid, [list(c) for c in eles]] for sid, eles in m0]
+                m[k][1][1] = ['A' * (1 + pad)]
+                ITEMS.append(('boundary:834.4010.X095.A1.xml:pad%d' % pad, 'boundary', 'pad', m, 'E'))
     return bad
+
+
+BOUNDARY_ENCS = [('~', '*', ':', '\n'), ('~', '*', ':', '\r\n'), ('~', '*', ':', '\r'), ('!', '|', '>', '\r\n')]
 
 
 def work(shard):
@@ -330,6 +345,8 @@ def work(shard):
             P.counters['skipped documents: ' + why] += 1
             continue
         encs = all_encodings(lv) if thorough else quick_encodings(lv)
+        if fam == 'boundary':
+            encs = BOUNDARY_ENCS
         found, skip = judge_doc(matrix, charset, encs, P)
         if skip:
             P.counters['skipped documents: ' + skip] += 1
@@ -361,7 +378,8 @@ def run(R):
     R.pmap(work, [(p, nparts, R.thorough) for p in range(nparts)])
     R.total.states = R.total.counters.get('documents', 0)
     R.total.transitions = R.total.n
-    R.bounds = {'documents': 'per map file (%d): minimal and all-filled conformant document, one document per C03 fault kind, '
+    R.bounds = {'boundary': 'an 85-set 834 (about 19 KB, beyond two 8 KiB refills) with one element lengthened by 0..%d characters, so that every terminator / CR / LF position relative to the read boundaries occurs, x 4 line-break encodings' % (47 if R.thorough else 29),
+                'documents': 'per map file (%d): minimal and all-filled conformant document, one document per C03 fault kind, '
                              '%d structural operators (%s) at %s of the minimal document'
                              % (len(corpus.one_entry_per_map()), len(MUT_OPS + OWN_OPS), ', '.join(MUT_OPS + OWN_OPS),
                                 '3 positions (first body segment, middle, SE)' if R.thorough else '2 positions (middle, SE)'),
